@@ -94,8 +94,10 @@ def stage_ticks(report, tier, rng, dist):
 class LineInjector:
     """Raises KeyboardInterrupt in the calling thread at the n-th 'line' event inside /repo/labtech code."""
 
-    def __init__(self, target):
+    def __init__(self, target, second=None):
         self.target = target
+        self.second = second          # a second interrupt, this many line events after the first
+        self.where2 = None
         self.files = []
         self.count = 0
         self.fired = 0
@@ -118,6 +120,10 @@ class LineInjector:
                 self.fired += 1
                 self.where = f'{os.path.relpath(frame.f_code.co_filename, self.prefix)}:{frame.f_lineno} ({frame.f_code.co_name})'
                 raise KeyboardInterrupt(f'injected at line event {n}')
+            if self.target is not None and self.second is not None and n == self.target + 1 + self.second:
+                self.fired += 1
+                self.where2 = f'{os.path.relpath(frame.f_code.co_filename, self.prefix)}:{frame.f_lineno} ({frame.f_code.co_name})'
+                raise KeyboardInterrupt(f'second interrupt injected at line event {n}')
         return self._local
 
     def _global(self, frame, event, arg):
@@ -128,15 +134,42 @@ class LineInjector:
         return None
 
     def __enter__(self):
+        if self.second is not None:
+            # Python drops a trace function that raises: for a second interrupt the tracing is switched on again when the
+            # coordinator announces that it has handled the first one (its "Interrupted." log record), for new calls and for
+            # the labtech frames already on the stack
+            import logging
+            inj = self
+
+            class Rearm(logging.Handler):
+                def emit(self, record):
+                    if record.getMessage().startswith('Interrupted.') and threading.get_ident() == inj.thread and os.getpid() == inj.pid:
+                        f = sys._getframe()
+                        while f is not None:
+                            if f.f_code.co_filename.startswith(inj.prefix):
+                                f.f_trace = inj._local
+                            f = f.f_back
+                        sys.settrace(inj._global)
+            lg = logging.getLogger('labtech')
+            self._saved_log = (lg.level, list(lg.handlers), lg.propagate)
+            lg.handlers = [Rearm()]
+            lg.propagate = False
+            lg.setLevel(logging.INFO)
         sys.settrace(self._global)
         return self
 
     def __exit__(self, *a):
         sys.settrace(None)
+        if self.second is not None:
+            import logging
+            lg = logging.getLogger('labtech')
+            lg.setLevel(self._saved_log[0])
+            lg.handlers = self._saved_log[1]
+            lg.propagate = self._saved_log[2]
 
 
-def run_lines(case, target, runner):
-    inj = LineInjector(target)
+def run_lines(case, target, runner, second=None):
+    inj = LineInjector(target, second)
     if runner == 'serial':
         obs = S.run_case(dict(case, runner='serial'), catch_ki=True, around_run=inj)
         return obs, inj
@@ -210,6 +243,23 @@ def stage_lines(report, tier, rng, dist, runner):
                     report.notes.append(f'line-level run not reproduced on a second attempt: {v[1][:200]}')
                     continue
                 report.violation(f'C14:{v[0]}@{(inj.where or "?").split(" ")[0].split(":")[0]}', v[1], dict(case=case, line_event=tgt, where=inj.where, runner=runner, level='line'))
+        # two interrupts at line level under the process runner: the second one lands in the handler of the first (cancel,
+        # the draining loop, wait, the executor) a few line events later; whatever the pair, KeyboardInterrupt and no hang
+        if runner == 'l2':
+            firsts = (critical if tier == 'thorough' else rng.sample(critical, min(len(critical), 30)))
+            for tgt in firsts:
+                for k2 in rng.sample(range(0, 90), 2 if tier == 'quick' else 6):
+                    obs, inj = run_lines(case, tgt, runner, second=k2)
+                    runs += 1
+                    dist[f'l2_double_line_fired={inj.fired}'] += 1
+                    v = monitor_interrupted(obs, inj.fired, f'interrupts at {inj.where} and {inj.where2} under the l2 runner')
+                    if v is not None:
+                        obs2, inj2 = run_lines(case, tgt, runner, second=k2)
+                        if monitor_interrupted(obs2, inj2.fired, '') is None:
+                            dist['line_violation_not_reproduced'] += 1
+                            continue
+                        report.violation(f'C14:{v[0]}@{(inj.where2 or inj.where or "?").split(" ")[0].split(":")[0]}', v[1],
+                                         dict(case=case, line_event=tgt, second=k2, where=inj.where, where2=inj.where2, runner=runner, level='line'))
     return runs
 
 
@@ -315,7 +365,7 @@ def run(prop, report, tier, seed, replay=None):
             if v:
                 report.violation(f'C14:{v[0]}', v[1], inp)
         elif inp.get('level') == 'line':
-            obs, inj = run_lines(inp['case'], inp['line_event'], inp['runner'])
+            obs, inj = run_lines(inp['case'], inp['line_event'], inp['runner'], second=inp.get('second'))
             v = monitor_interrupted(obs, inj.fired, f'replay at {inj.where}')
             if v:
                 report.violation(f'C14:{v[0]}', v[1], inp)
